@@ -265,6 +265,19 @@ def lengths(R, P):
     def written(name, cursor_var, reported, pad_check=False):
         f, num, ex = _exit_states(R, P, name)
         n_ok, bad = 0, None
+        # the write cursor is the variable that indexes the stores into the output (whatever it is called, also when the
+        # loop lives in an expanded private helper)
+        cands = {}
+        for b_ in f.blocks.values():
+            for el in b_.elems:
+                if el["k"] == "bin" and el["op"] == "=" and (f.d(el["a"][0]) or {}).get("k") == "index":
+                    ix = f.d(f.d(el["a"][0])["a"][1])
+                    if ix is not None and ix["k"] == "un" and ix["op"] in ("post++", "pre++"):
+                        ix = f.d(ix["a"][0])
+                    if ix is not None and ix["k"] == "var":
+                        cands[ix["n"]] = cands.get(ix["n"], 0) + 1
+        if cursor_var not in cands and len(cands) == 1:
+            cursor_var = list(cands)[0]
         for r, st, rv in ex:
             if not (rv is not None and rv.is_const() and rv.cval() == 0):
                 continue
@@ -343,12 +356,19 @@ def decoder(R, P):
         R.broken("NUM trace limit in aws_base64_decode: %s" % ex)
         return
     n_ok, bad, wf_bad, n_wf = 0, None, None, 0
+
+    def lv(st, name):
+        """a local by its source name, also when it lives in an expanded private helper (`helper$1$name`)"""
+        if "v:" + name in st.env:
+            return st.env["v:" + name]
+        ks = [k for k in st.env if k.startswith("v:") and k.endswith("$" + name)]
+        return st.env[ks[0]] if len(ks) == 1 else None
     for r in rets:
         for st in sts.get(r["id"], []):
             rv = num.val(r["a"][0], st)
-            if not (rv is not None and rv.is_const() and rv.cval() == 0) or "v:buffer_index" not in st.env:
+            if not (rv is not None and rv.is_const() and rv.cval() == 0) or lv(st, "buffer_index") is None:
                 continue
-            D = st.env.get("v:decoded_length")
+            D = lv(st, "decoded_length")
             hw = st.notes.get("hw", [])
             if D is None:
                 bad = "decoded_length not tracked"
@@ -360,7 +380,7 @@ def decoder(R, P):
             else:
                 bad = "reported %r, offsets stored on this path %s | branch trail %s" % (D, [repr(h) for h in hw[-3:]], st.trail[-6:])
             # well-formedness of the final quantum
-            v = [st.env.get("v:value%d" % i) for i in (1, 2, 3, 4)]
+            v = [lv(st, "value%d" % i) for i in (1, 2, 3, 4)]
             if any(x is None for x in v):
                 continue
             n_wf += 1
@@ -451,7 +471,7 @@ def dispatch(R, P):
         okc = bool(cap) and all(b.id in dom.get(test[0].blk, ()) for b in cap) and len(tests) == 1
         R.check(ev_dominates(f, lc[0], test[0], dom) and okc, "DISPATCH", "%s:checks-before-dispatch" % name, where(f, test[0]), "the length computation and the capacity check dominate the (single) CPU dispatch",
                 "the CPU dispatch in %s is not behind the common length/capacity checks (or the CPU test also decides something else)" % name)
-        gk = [(RU.cond_call(f, c)[0], pol) for c, pol, b in RU.guards(f, kc[0], dom)]
+        gk = [(RU.cond_call(f, c)[0], (pol != RU.cond_call(f, c)[1]) if isinstance(pol, bool) else pol) for c, pol, b in RU.guards(f, kc[0], dom)]
         R.check(any(c is test[0].node and pol for c, pol in gk), "DISPATCH", "%s:kernel-only-when-available" % name, where(f, kc[0]), "the vectorised kernel runs only when has_avx2() is true")
     # same reported length on both paths
     f = P.fn("aws_base64_encode")
